@@ -237,9 +237,10 @@ end
 
 /-! ### The branch tests of `arc` / `arc_to`, numerically
 
-The tie instantiates `Geo` with `numGeo`: which branch is taken is decided *here* from the
-operands (radii), the adapter's current position, and lyon_geom's results for that arc
-(centre, start point, pieces) — not by flags computed in the harness. -/
+`isStraightLine`, `approxEqPt`, `nearStart` are what `Model/Path/SvgConcrete.lean` (`concreteGeo`,
+the geometry the tie and the theorems of `Props/C15b.lean` use) is built from.  `numGeo` below is
+the earlier, advice-fed instance (centre, start point and pieces handed in from lyon_geom, the
+branches decided here); the driver no longer uses it. -/
 
 section numeric
 variable [Scalar α] [Transc α]
